@@ -102,7 +102,9 @@ def run_one(sid, in_repo=False, budget='45', passes=None):
         return run_one(sid, in_repo, budget, passes=True)
     dst = os.path.join(SEEDED, sid)
     meta = json.load(open(os.path.join(dst, 'meta.json')))
-    prop = meta['property']
+    # (a change written against one property may sit in code that another claimed property covers: the check of
+    # THAT property is the one expected to report it; meta.json says so and why)
+    prop = meta.get('check_property', meta['property'])
     patch = open(os.path.join(dst, 'patch.diff')).read()
     env = dict(os.environ)
     env['VERIF_BUDGET_S'] = budget
